@@ -271,6 +271,8 @@ def files_job(job) -> dict:
                                             and np.array_equal(np.asarray(content, dtype=float), np.asarray(data, dtype=float)))
                             else:
                                 same = True if (content is None and exists) else (exists and _same(content, data))
+                            # "... in the requested format": the file reported for a format is a file of that format
+                            same = bool(same) and path.suffix.lstrip(".").lower() == str(fmt).lower()
                             events.append({"e": "reported", "p": p, "run": run, "bucket": b, "fmt": str(fmt),
                                            "path": str(path.relative_to(parent)) if str(path).startswith(str(parent)) else str(path),
                                            "indir": path.parent == own, "exists": bool(exists), "same": bool(same)})
